@@ -96,6 +96,10 @@ func buildTracked(n Node, path string, all *[]*mStack) (any, *mStack) {
 	if n.Amb != 0 {
 		ApplyAmbient(s, n.Amb&^AmbErr) // (an error recorded earlier is exercised separately below, where Defrag is known to succeed)
 	}
+	if n.ValidRej {
+		// what its owner thinks of a nested stack's content (a closure that objects to nil elements, say) has no say in Defrag
+		s.SetValidityPolicy(func(...any) error { return errValidityRejects })
+	}
 	return wrapStack(s, n.Wrap), ms
 }
 
@@ -531,6 +535,7 @@ func genC19(t *rapid.T, tier Tier) C19Case {
 			Paren: rapid.Bool().Draw(t, "paren"), Amb: drawAmbient(t, true), NoNest: rapid.IntRange(0, 4).Draw(t, "nonest-after") == 0}
 		if depth > 0 {
 			n.Wrap = rapid.SampledFrom([]int{0, 0, WrapAlias, WrapPtr}).Draw(t, "wrap")
+			n.ValidRej = rapid.IntRange(0, 4).Draw(t, "validrej") == 0
 		}
 		genElems(&n, depth)
 		if rapid.IntRange(0, 5).Draw(t, "cap") == 0 {
